@@ -84,3 +84,16 @@ Theorem C01_convert_model_total : forall c src, bytes_ok src -> exists o, Conver
 Proof. exact ConvertModel_total_all. Qed.
 Print Assumptions C01_convert_model_total.
 (* bytes_ok says that every element of the source is a byte (< 256): true of every Go []byte *)
+
+(* ---------------- the statement of C01 for the Convert model with extension.GFM (model/GfmI.v:
+   tables, strikethrough, task lists, linkify; every subset): for EVERY source and EVERY renderer
+   configuration the model returns an output - no Panic, no exhausted fuel in the generalised
+   block driver with the table transformer, the inline loop with the three extension parsers, the
+   table AST pass, the renderer *)
+Require Import GM.model.InlineParseX GM.model.GfmI GM.proofs.GfmWf.
+Theorem C01_gfm_parser_model_total : forall xc src, bytes_ok src -> exists t, ParseTreeX xc src = Ok t.
+Proof. exact ParseTreeX_total. Qed.
+Print Assumptions C01_gfm_parser_model_total.
+Theorem C01_convert_gfm_model_total : forall xc c src, bytes_ok src -> exists o, ConvertModelX xc c src = Ok o.
+Proof. exact ConvertModelX_total. Qed.
+Print Assumptions C01_convert_gfm_model_total.
